@@ -153,11 +153,6 @@ pub open spec fn comp_fn<const K: usize>(a0: AArena<K>, h0: Map<usize, nat>, ts:
         } else { None }
     }
 }
-// g after f as partial functions
-pub open spec fn and_then_fn<const K: usize>(a0: AArena<K>, h0: Map<usize, nat>, al: AArena<K>, hl: Map<usize, nat>, rl: usize, idx: usize, x: V) -> Option<V> {
-    match tree_fn(a0, h0, idx, x) { None => None, Some(y) => tree_fn(al, hl, rl, y) }
-}
-
 // ---------------------------------------------------------------- lemmas
 pub proof fn lemma_label_val_eq(a: &AffFunc, b: &AffFunc, x: V, y: V, n: int)
     requires forall|i: int| 0 <= i < n ==> (#[trigger] a.row_sat(i, x) <==> b.row_sat(i, y))
